@@ -696,8 +696,9 @@ static int _parse_inline(qaconf_t *qaconf, FILE *fp, uint8_t flags,
                 cbdata->otype = QAC_OTYPE_SECTIONOPEN;
             }
 
-            // Remove tailing bracket
+            // Remove tailing bracket and the blanks in front of it
             ENDING_CHAR(sp) = '\0';
+            qstrtrim_tail(sp);
         } else {
             cbdata->otype = QAC_OTYPE_OPTION;
         }
